@@ -264,6 +264,44 @@ def part_constructors(ctx):
                 a.diag().is_consistent()
         except Exception as e:  # noqa: BLE001
             ctx.fail("oracle", "c02:constructor:is_consistent", f"{fname}(isdiag={diag}): {type(e).__name__}: {e}", case=case, concrete=True)
+        # set_block, the documented in-place initialiser: a block whose charges violate the selection rule must be rejected and leave
+        # the tensor untouched (plain and DIAGONAL tensors, one-charge and explicit pair form); an admissible block keeps it well-formed
+        if sym != "dense" and rng.random() < 0.6:
+            nsym = cfg.sym.NSYM
+            dg = rng.random() < 0.5
+            b = yastn.Tensor(config=cfg, s=(l.s, -l.s), isdiag=dg)
+            t1 = tuple(rng.choice(l.t))
+            others = [tuple(x) for x in l.t if tuple(x) != t1] or [tuple(cfg.sym.add_charges(t1, t1)) if tuple(cfg.sym.add_charges(t1, t1)) != t1 else None]
+            t2 = rng.choice(others)
+            form = rng.choice(["pair-equal", "pair-different", "single"] if dg else ["pair-equal", "pair-different"])
+            if form == "pair-different" and t2 is None:
+                form = "pair-equal"
+            D = rng.randint(1, 3)
+            ts = (t1, t1) if form == "pair-equal" else (t1, t2) if form == "pair-different" else t1
+            Ds = (D, D) if form != "single" else D
+            scase = {"sym": sym, "part": "set_block", "isdiag": dg, "form": form, "ts": [list(t1), list(t2 or ())], "D": D, "s": l.s}
+            ctx.count(f"constructors:set_block:{'diag' if dg else 'plain'}:{form}")
+            before = (b.struct, b.slices, bytes(b._data.tobytes()))
+            try:
+                b.set_block(ts=ts, Ds=Ds, val="ones")
+                err = None
+            except yastn.YastnError as e:
+                err = str(e)
+            except Exception as e:  # noqa: BLE001
+                ctx.fail("oracle", "c02:constructor:exception", f"set_block(ts={ts}) raised {type(e).__name__}: {e}", case=scase, concrete=True)
+                continue
+            if form == "pair-different":
+                if err is None:
+                    ctx.fail("oracle", "c02:set_block:accepts-forbidden-block", f"set_block(ts={ts}) on a {'diagonal' if dg else 'rank-2'} tensor of charge 0 and "
+                             f"signature {(l.s, -l.s)} was accepted although the charges do not combine to the tensor charge", case=scase, concrete=True)
+                elif (b.struct, b.slices, bytes(b._data.tobytes())) != before:
+                    ctx.fail("oracle", "c02:set_block:rejected-but-modified", f"set_block(ts={ts}) was rejected but changed the tensor", case=scase, concrete=True)
+            elif err is not None:
+                ctx.fail("oracle", "c02:constructor:rejects-valid", f"set_block(ts={ts}, Ds={Ds}) rejected an admissible block: {err}", case=scase, concrete=True)
+            else:
+                w = wf_oracle(b, ms)
+                if w:
+                    ctx.fail("oracle", f"c02:constructor:{w[0]}", f"set_block(ts={ts}) left an ill-formed tensor: {w[1]}", case=scase, concrete=True)
 
 
 def search(ctx, broken, budget):
